@@ -1177,3 +1177,158 @@ func ruleLoopFresh(r *Run) {
 	}
 	r.Min("struct_insertions_in_table_loops", n, 5)
 }
+
+// ---------------------------------------------------------------------------
+// R-PREFIX-APPEND (C18, C09): `n := x[:k]` shares x's backing array.  Appending new elements to n
+// overwrites x[k], x[k+1], … in place; if x's tail is read afterwards (to keep "the rows after the
+// template row") it has already been clobbered.  A prefix of a live slice may only be appended to
+// with that slice's own tail (the remove/insert idioms, which memmove handles) or after a full
+// slice expression x[:k:k] / a copy.
+// ---------------------------------------------------------------------------
+
+func rulePrefixAppend(r *Run) {
+	p := r.P
+	n := 0
+	for _, fn := range p.ModFuncs() {
+		if fn.Pkg == nil || fn.Pkg.Pkg.Path() != pkgDoc {
+			continue
+		}
+		// stores per path
+		storeBlocks := map[string]map[*ssa.BasicBlock]bool{}
+		allInstrs(fn, func(in ssa.Instruction) {
+			if st, ok := in.(*ssa.Store); ok {
+				ps := pathString(st.Addr)
+				if storeBlocks[ps] == nil {
+					storeBlocks[ps] = map[*ssa.BasicBlock]bool{}
+				}
+				storeBlocks[ps][st.Block()] = true
+			}
+		})
+		idx := 0
+		allInstrs(fn, func(in ssa.Instruction) {
+			ap, ok := in.(*ssa.Call)
+			if !ok {
+				return
+			}
+			if b, ok := ap.Call.Value.(*ssa.Builtin); !ok || b.Name() != "append" || len(ap.Call.Args) < 2 {
+				return
+			}
+			// chase the accumulator to its origin
+			var origin *ssa.Slice
+			seen := map[ssa.Value]bool{}
+			var chase func(v ssa.Value)
+			chase = func(v ssa.Value) {
+				if v == nil || seen[v] || origin != nil {
+					return
+				}
+				seen[v] = true
+				switch x := v.(type) {
+				case *ssa.Phi:
+					for _, e := range x.Edges {
+						chase(e)
+					}
+				case *ssa.Call:
+					if b, ok := x.Call.Value.(*ssa.Builtin); ok && b.Name() == "append" {
+						chase(x.Call.Args[0])
+					}
+				case *ssa.Slice:
+					if x.Low == nil && x.High != nil && x.Max == nil {
+						if _, isSlice := x.X.Type().Underlying().(*types.Slice); isSlice {
+							origin = x
+						}
+					}
+				}
+			}
+			chase(ap.Call.Args[0])
+			if origin == nil {
+				return
+			}
+			ld, ok := origin.X.(*ssa.UnOp)
+			if !ok || ld.Op != token.MUL {
+				return
+			}
+			if _, isLocal := ld.X.(*ssa.Alloc); isLocal {
+				return
+			}
+			path := pathString(ld.X)
+			// appended with the same slice's own tail: remove/insert idiom
+			if s1, ok := ap.Call.Args[1].(*ssa.Slice); ok {
+				if l1, ok := s1.X.(*ssa.UnOp); ok && pathString(l1.X) == path {
+					return
+				}
+			}
+			n++
+			idx++
+			// is the tail of the same slice read later, before the path is overwritten?
+			cut := map[*ssa.BasicBlock]bool{}
+			for b := range storeBlocks[path] {
+				if b != ap.Block() {
+					cut[b] = true
+				}
+			}
+			after := reachableBlocks(ap.Block(), cut)
+			// the usual case `x = append(x[:i], …)`: the path is overwritten right after the append in
+			// the same block, so everything later (including the next loop iteration) sees the new slice
+			storeAfter := -1
+			for i, in2 := range ap.Block().Instrs {
+				if st, ok := in2.(*ssa.Store); ok && i > instrIndex(ap) && pathString(st.Addr) == path {
+					storeAfter = i
+					break
+				}
+			}
+			stale := ""
+			allInstrs(fn, func(in2 ssa.Instruction) {
+				s2, ok := in2.(*ssa.Slice)
+				if !ok || s2 == origin || s2.Low == nil {
+					return
+				}
+				l2, ok := s2.X.(*ssa.UnOp)
+				if !ok || pathString(l2.X) != path {
+					return
+				}
+				if storeAfter >= 0 {
+					if s2.Block() != ap.Block() || instrIndex(s2) < instrIndex(ap) || instrIndex(s2) > storeAfter {
+						return
+					}
+				}
+				if !after[s2.Block()] {
+					// a block that overwrites the path, reached from the append: reads before that store count
+					entered := false
+					for _, pr := range s2.Block().Preds {
+						if after[pr] {
+							entered = true
+						}
+					}
+					if !entered || !cut[s2.Block()] {
+						return
+					}
+					for i, in3 := range s2.Block().Instrs {
+						if st, ok := in3.(*ssa.Store); ok && pathString(st.Addr) == path {
+							if i < instrIndex(s2) {
+								return
+							}
+							break
+						}
+					}
+				}
+				if s2.Block() == ap.Block() && instrIndex(s2) < instrIndex(ap) {
+					// evaluated before the append in straight-line code (unless the block is in a loop)
+					if !reachableBlocks(firstSucc(ap.Block()), nil)[ap.Block()] {
+						return
+					}
+				}
+				stale = p.pos(s2.Pos())
+			})
+			r.Check("prefix-append", fmt.Sprintf("%s#%d", shortName(topLevel(fn)), idx), ap.Pos(), stale == "",
+				fmt.Sprintf("%s appends new elements to a prefix x[:k] of %s%s", shortName(fn), path, map[bool]string{true: "; the rest of that slice is not read afterwards", false: " and reads the tail of the same slice afterwards (" + stale + "): the appended elements have already overwritten it in place"}[stale == ""]))
+		})
+	}
+	r.Count("prefix_append_sites", n)
+}
+
+func firstSucc(b *ssa.BasicBlock) *ssa.BasicBlock {
+	if len(b.Succs) == 0 {
+		return b
+	}
+	return b.Succs[0]
+}
